@@ -245,7 +245,8 @@ class _Transport:
 def search(h):
     """The request loop: at most three requests at 0.5 s spacing, stops after the first interval with an answer."""
     if not h.symbolic:
-        return
+        from replay import more_scenarios as MS
+        return MS.oblige_from(h, [MS.discovery_search_scenarios])
     g = h.choice("generation", [4, 5])
     G = GEN[g]
     unicast = h.choice("unicast", [False, True])
